@@ -13,6 +13,7 @@ Conf(op, tlsA, credA, mirror, repoAuth, eh, es) ==
 \* the registries are configured and addressed as host:port (no effect on the design: every comparison
 \* in the client is on URL.Host; it is a dimension of the replay, where a change may break that)
 WithPorts(c) == [c EXCEPT !.ports = TRUE]
+WithCred(c, r, k) == [c EXCEPT !.cred[r] = k]     \* credential kind of B or M
 CredKinds == {"none", "up", "tok", "uptok"}
 ExtURLs == {<<"E", "https">>, <<"E", "http">>, <<"A", "http">>, <<"P", "https">>}
 PullConfs(ops, creds) ==
@@ -22,7 +23,7 @@ PushConfs(ops, creds) ==
 ExtConfs(ops, creds) ==
   {Conf(op, TRUE, c, m, FALSE, e[1], e[2]) : op \in ops, c \in creds, m \in Bools, e \in ExtURLs}
 AllConfs == PullConfs({"mget", "mhead", "bget", "bhead", "two"}, CredKinds)
-            \cup PushConfs({"mput", "bput", "copy"}, CredKinds)
+            \cup PushConfs({"mput", "bput", "copy", "mount"}, CredKinds)
             \cup ExtConfs({"ext", "copyext"}, CredKinds)
 \* a smaller space for the deep runs
 CoreConfs == PullConfs({"bget", "two"}, {"up", "uptok"})
@@ -36,6 +37,7 @@ QuickBase ==
   \cup {Conf("bput", TRUE, "up", FALSE, FALSE, "E", "https"), Conf("mput", TRUE, "tok", FALSE, FALSE, "E", "https"),
         Conf("copy", TRUE, "up", FALSE, FALSE, "E", "https")}
   \cup {Conf("ext", TRUE, "up", FALSE, FALSE, e[1], e[2]) : e \in ExtURLs}
+  \cup {Conf("mount", TRUE, "up", FALSE, TRUE, "E", "https")}
 QuickGenConfs ==
   {IF c.tls["A"] /\ c.op # "two" THEN WithPorts(c) ELSE c : c \in QuickBase}
   \cup {Conf("bget", TRUE, "up", FALSE, FALSE, "E", "https"), Conf("ext", TRUE, "up", FALSE, FALSE, "A", "http")}
@@ -46,7 +48,13 @@ MidBase ==
         Conf("bhead", TRUE, "up", TRUE, TRUE, "E", "https")}
   \cup {Conf("ext", TRUE, "tok", FALSE, FALSE, e[1], e[2]) : e \in ExtURLs}
 MidGenConfs == {IF c.mirror THEN c ELSE WithPorts(c) : c \in MidBase}
-SimConfs == AllConfs \cup {WithPorts(c) : c \in AllConfs}
+  \cup {WithCred(Conf(op, TRUE, "up", TRUE, FALSE, "E", "https"), "M", k) : op \in {"mget", "bget"}, k \in {"tok", "uptok", "none"}}
+  \cup {WithCred(Conf("copy", TRUE, "up", FALSE, FALSE, "E", "https"), "B", k) : k \in {"tok", "uptok", "none"}}
+  \cup {Conf("mount", TRUE, c, m, ra, "E", "https") : c \in {"tok", "uptok"}, m \in Bools, ra \in Bools}
+  \cup {Conf("mount", TRUE, "up", FALSE, FALSE, "E", "https")}
+OtherCreds == {WithCred(c, "M", k) : c \in {x \in AllConfs : x.mirror}, k \in {"tok", "uptok", "none"}}
+              \cup {WithCred(c, "B", k) : c \in {x \in AllConfs : x.op \in {"copy", "copyext"}}, k \in {"tok", "uptok", "none"}}
+SimConfs == AllConfs \cup {WithPorts(c) : c \in AllConfs} \cup OtherCreds
 DeepConfs ==
   {Conf("bget", TRUE, "up", FALSE, FALSE, "E", "https"), Conf("ext", TRUE, "up", FALSE, FALSE, "E", "https"),
    Conf("copy", TRUE, "up", FALSE, FALSE, "E", "https")}
